@@ -513,6 +513,9 @@ impl TrainDisp {
                     disp_auth_exit.offset_back = f64::INFINITY * uc::M;
                     disp_auth_exit.arrive_exit =
                         disp_auth_exit.arrive_exit.min(self.time_update_next);
+                    // a train longer than its last link never got its tail inside it
+                    disp_auth_exit.clear_entry =
+                        disp_auth_exit.clear_entry.min(self.time_update_next);
                     disp_auth_exit.arrive_entry =
                         disp_auth_exit.clear_entry.min(self.time_update_next);
                     disp_auth_exit.clear_exit = self.time_update_next;
